@@ -237,7 +237,6 @@ Print Assumptions C18_derived_verdicts_exact.
 Theorem C18_derived_bounds_unsaturated :
   forall c k,
   caps_wf k -> counts_wf c -> counts_consistent c ->
-  Forall (fun x => fc_locals x <= n_locals c) (per_fn c) ->
   (forall m, metric_index m < metric_index MSummary -> trips c k m = false) ->
   summary_exact (max_functions k) (max_locals k) <= u64_max ->
   (max_total_blocks k * 2 + max_total_ops k) * max_locals k <= u64_max ->
